@@ -109,6 +109,15 @@ func reorgBumpClock(dir string) error {
 // (Engine.Open + Assign: shards opened, down-sample log and compact logs recovered, WAL replayed).
 // dsLevel is the shard's down-sample level as ts-meta knows it.
 func openReorgEnv(dir string, o engx.Options, dsLevel int) (*reorgEnv, error) {
+	return openReorgEnvOpt(dir, o, dsLevel, true)
+}
+
+// openReorgEnvRead opens a crash image that is only read and closed again: the Sequencer is left alone.
+func openReorgEnvRead(dir string, o engx.Options, dsLevel int) (*reorgEnv, error) {
+	return openReorgEnvOpt(dir, o, dsLevel, false)
+}
+
+func openReorgEnvOpt(dir string, o engx.Options, dsLevel int, loadSequencer bool) (*reorgEnv, error) {
 	engx.GlobalInit(filepath.Join(dir, "logs"))
 	if o.WalParts > 0 {
 		cpu.SetCpuNum(o.WalParts, 1)
@@ -213,7 +222,7 @@ func openReorgEnv(dir string, o engx.Options, dsLevel int) (*reorgEnv, error) {
 	st.MergeDisable()
 	st.Wait()
 	e.IndexFlush()
-	if os.Getenv("VH_NO_PRELOAD_SEQ") == "" {
+	if loadSequencer && os.Getenv("VH_NO_PRELOAD_SEQ") == "" {
 		// The Sequencer (per-series last flush times) is loaded by the first write after an open. A level
 		// compaction that runs on a re-opened shard BEFORE that load makes the load drop the id-times of
 		// one of the files now and then (about 1 run in 20 under load; finding F-C02-3): the next flush
